@@ -1411,7 +1411,14 @@ static void DecodeBField(Word Code) {
                         Num1 = EvalStrIntExpression(&ArgStr[3], Int5, &OK) & 31;
                         break;
                     default:
-                        abort();
+                        /* forward reference to a register alias:
+                           its size is known in the next pass */
+                        if (Repass) {
+                            CodeLen = 4;
+                        } else {
+                            WrError(ErrNum_UndefOpSizes);
+                        }
+                        return;
                     }
                     if (OK) {
                         if ((OpSize == 2) && (Num1 > 15)) {
